@@ -2,6 +2,7 @@ package engines
 
 import (
 	"fmt"
+	"os"
 	"path/filepath"
 	"strings"
 
@@ -72,6 +73,8 @@ func c09RunImpl(c corr.Case) []string {
 				return "case"
 			case "snapshot":
 				return SnapLine(SnapshotMem(st.mem))
+			case "symlink-os":
+				return c09SymlinkOS(string(corr.UnHex(t[1])), string(corr.UnHex(t[2])), string(corr.UnHex(t[3])))
 			case "fullpath":
 				if b, ok := st.fs.(*afero.BasePathFs); ok {
 					return "str=" + corr.HexS(afero.FullBaseFsPath(b, string(corr.UnHex(t[1]))))
@@ -84,6 +87,66 @@ func c09RunImpl(c corr.Case) []string {
 	return out
 }
 
+// c09SymlinkOS: the Lstat/symlink extensions, on the operating system's file system (MemMapFs has no links).
+// SymlinkIfPossible(old, new) through a BasePathFs rooted at <tmp>/<root> must be Symlink(D/old, D/new) on the
+// source; ReadlinkIfPossible and LstatIfPossible must answer what the source answers for D/new; reading through the
+// link must reach the target inside the root.
+func c09SymlinkOS(root, oldname, newname string) string {
+	tmp, err := os.MkdirTemp("", "verif-c09-")
+	if err != nil {
+		return "fail: " + err.Error()
+	}
+	defer os.RemoveAll(tmp)
+	D := filepath.Join(tmp, root)
+	os.MkdirAll(filepath.Join(D, "sub"), 0o755)
+	os.WriteFile(filepath.Join(D, "data.txt"), []byte("data"), 0o644)
+	os.WriteFile(filepath.Join(D, "sub", "inner.txt"), []byte("inner"), 0o644)
+	b := afero.NewBasePathFs(afero.NewOsFs(), D).(*afero.BasePathFs)
+	if _, err := b.RealPath(oldname); err != nil {
+		return "skipped: target outside the root"
+	}
+	realNew, err := b.RealPath(newname)
+	if err != nil {
+		return "skipped: link outside the root"
+	}
+	realOld, _ := b.RealPath(oldname)
+	// the reference: the same operation on the source with D prepended, in a second tree
+	tmp2, _ := os.MkdirTemp("", "verif-c09-")
+	defer os.RemoveAll(tmp2)
+	D2 := filepath.Join(tmp2, root)
+	os.MkdirAll(filepath.Join(D2, "sub"), 0o755)
+	os.WriteFile(filepath.Join(D2, "data.txt"), []byte("data"), 0o644)
+	os.WriteFile(filepath.Join(D2, "sub", "inner.txt"), []byte("inner"), 0o644)
+	rel := func(p, d string) string { return strings.TrimPrefix(p, d) }
+	refErr := os.Symlink(filepath.Join(D2, rel(realOld, D)), filepath.Join(D2, rel(realNew, D)))
+	gotErr := b.SymlinkIfPossible(oldname, newname)
+	if (refErr == nil) != (gotErr == nil) {
+		return fmt.Sprintf("fail: SymlinkIfPossible(%q, %q) = %v, the source with the root prepended gives %v", oldname, newname, gotErr, refErr)
+	}
+	if gotErr != nil {
+		return "both-fail"
+	}
+	refTarget, _ := os.Readlink(filepath.Join(D2, rel(realNew, D)))
+	gotTarget, err := os.Readlink(realNew)
+	if err != nil || rel(gotTarget, D) != rel(refTarget, D2) {
+		return fmt.Sprintf("fail: the link %q points to %q (%v), the same call on the source with the root prepended makes it point to %q", newname, rel(gotTarget, D), err, rel(refTarget, D2))
+	}
+	via, err := b.ReadlinkIfPossible(newname)
+	if err != nil || via != gotTarget {
+		return fmt.Sprintf("fail: ReadlinkIfPossible(%q) = %q, %v; the source says %q", newname, via, err, gotTarget)
+	}
+	fi, lst, err := b.LstatIfPossible(newname)
+	if err != nil || !lst || fi.Mode()&os.ModeSymlink == 0 {
+		return fmt.Sprintf("fail: LstatIfPossible(%q) does not describe the link (%v)", newname, err)
+	}
+	got, err1 := afero.ReadFile(b, newname)
+	ref, err2 := os.ReadFile(filepath.Join(D2, rel(realNew, D)))
+	if (err1 == nil) != (err2 == nil) || string(got) != string(ref) {
+		return fmt.Sprintf("fail: reading through the link gives %q, %v; the reference %q, %v", got, err1, ref, err2)
+	}
+	return "ok"
+}
+
 func c09Oracle(c corr.Case, impl []string) (string, int) {
 	var st *bpStack
 	var twin afero.Fs
@@ -94,6 +157,11 @@ func c09Oracle(c corr.Case, impl []string) (string, int) {
 			return "call panics: " + t[0], i
 		}
 		switch {
+		case t[0] == "symlink-os":
+			if strings.HasPrefix(impl[i], "fail") {
+				return impl[i], i
+			}
+			continue
 		case t[0] == "case":
 			st = bpNew(t)
 			twin = afero.NewMemMapFs()
@@ -224,6 +292,21 @@ func c09Random(r *corr.Rand, tier string) []corr.Case {
 	return cases
 }
 
+func c09SymlinkCases() []corr.Case {
+	h := corr.HexS
+	var cases []corr.Case
+	for _, root := range []string{"base", "base/deep/er"} {
+		for _, o := range []string{"data.txt", "/data.txt", "sub/inner.txt", "/sub/inner.txt", "./data.txt", "sub/../data.txt", "sub", "/nope"} {
+			l := []string{c09Header([]string{"bp", "/base"})}
+			for _, n := range []string{"link", "/link", "sub/link", "/sub/link", "sub/../link2"} {
+				l = append(l, "symlink-os "+h(root)+" "+h(o)+" "+h(n))
+			}
+			cases = append(cases, corr.Case{Lines: l})
+		}
+	}
+	return cases
+}
+
 func c09Exhaustive(tier string) []corr.Case {
 	// every Fs method once on an in-root file and directory, for every root, with non-trivial spellings
 	h := corr.HexS
@@ -247,7 +330,7 @@ func c09Exhaustive(tier string) []corr.Case {
 			cases = append(cases, corr.Case{Lines: l})
 		}
 	}
-	return cases
+	return append(cases, c09SymlinkCases()...)
 }
 
 func C09() *corr.Engine {
@@ -255,6 +338,7 @@ func C09() *corr.Engine {
 		ID: "C09", DriverEngine: "bpfs",
 		Exhaustive: c09Exhaustive, Random: c09Random,
 		RunImpl: c09RunImpl, Oracle: c09Oracle,
+		CompareLine: func(impl, model string) bool { return model == "unmodelled" || impl == model },
 		NonTrivial: func(c corr.Case, impl []string) bool {
 			for _, l := range c.Lines {
 				t := strings.Fields(l)
